@@ -91,7 +91,12 @@ def make(it):
 
     @reg('set')
     def _set(it, args, kw, n):
+        if args and isinstance(args[0], SymList) and getattr(args[0], 'contains_fn', None) is not None:
+            return SymSet(args[0].contains_fn)
+        if args and isinstance(args[0], SymSet):
+            return args[0]
         return PList(it.iterate(args[0], n)) if args else PList()
+    b['frozenset'] = b['set']
 
     @reg('map')
     def _map(it, args, kw, n):
